@@ -266,3 +266,100 @@ Theorem C13_bin_contains_rule :
          (if digitize edges v =? 0 then xleb l v else xltb l v) = true /\ xleb v h = true.
 Proof. exact bin_contains_rule. Qed.
 Print Assumptions C13_bin_contains_rule.
+
+
+(* ====================================================================================== *)
+(* TEXT TO APPEND TO props/C13.v                                                           *)
+(* header table entry:  "independent of the row order (equivariance)"                     *)
+(*     C13_min_perm, C13_max_perm, C13_finite_min_perm, C13_finite_max_perm,               *)
+(*     C13_quantile_perm, C13_unique_perm, C13_quantile_edges_perm, C13_uniform_edges_compat,*)
+(*     C13_bin_numeric_perm (ALL inputs, edges up to xeq), C13_bin_numeric_perm_rows,       *)
+(*     C13_bin_numeric_perm_canon (reduced fractions: Leibniz),                             *)
+(*     C13_value_counts_perm, C13_freq_table_perm, C13_bin_string_perm (Leibniz)            *)
+(* ====================================================================================== *)
+From Coq Require Import QArith List Permutation String.
+Import ListNotations.
+From MD Require Import lib.QLists model.Functionals model.Binning proofs.BinningProps proofs.BinningPerm.
+
+Theorem C13_min_perm : forall l l', Permutation l l' -> orel xeq (xmin_opt l) (xmin_opt l').
+Proof. exact xmin_opt_perm. Qed.
+Print Assumptions C13_min_perm.
+
+Theorem C13_max_perm : forall l l', Permutation l l' -> orel xeq (xmax_opt l) (xmax_opt l').
+Proof. exact xmax_opt_perm. Qed.
+Print Assumptions C13_max_perm.
+
+Theorem C13_finite_min_perm : forall l l' fmin fmin',
+  Permutation l l' -> xeq fmin fmin' -> orel xeq (finite_min l fmin) (finite_min l' fmin').
+Proof. exact finite_min_perm. Qed.
+Print Assumptions C13_finite_min_perm.
+
+Theorem C13_finite_max_perm : forall l l' fmax fmax',
+  Permutation l l' -> xeq fmax fmax' -> orel xeq (finite_max l fmax) (finite_max l' fmax').
+Proof. exact finite_max_perm. Qed.
+Print Assumptions C13_finite_max_perm.
+
+(* np.nanquantile(..., method="inverted_cdf") is a function of the multiset *)
+Theorem C13_quantile_perm : forall a l l', Permutation l l' -> xeq (xqlow a l) (xqlow a l').
+Proof. exact xqlow_perm. Qed.
+Print Assumptions C13_quantile_perm.
+
+(* np.unique *)
+Theorem C13_unique_perm : forall l l', Permutation l l' -> Forall2 xeq (xuniq l) (xuniq l').
+Proof. exact xuniq_perm. Qed.
+Print Assumptions C13_unique_perm.
+
+Theorem C13_quantile_edges_perm : forall l l' m,
+  Permutation l l' -> Forall2 xeq (quantile_edges l m) (quantile_edges l' m).
+Proof. exact quantile_edges_perm. Qed.
+Print Assumptions C13_quantile_edges_perm.
+
+Theorem C13_uniform_edges_compat : forall a a' b b' m,
+  (a == a')%Q -> (b == b')%Q -> uniform_edges a (b - a) m = uniform_edges a' (b' - a') m.
+Proof. exact uniform_edges_compat. Qed.
+Print Assumptions C13_uniform_edges_compat.
+
+(* bin_feature on a numeric / Boolean column, every method (numpy rule: same interior edges supplied):
+   same outcome class, same returned n_bins, edges and edge table pointwise xeq, and the frames are
+   `map g l`, `map g' l'` with g, g' agreeing on EVERY cell (same bin number, xeq edges) *)
+Theorem C13_bin_numeric_perm : forall kind l l' n_bins m interior,
+  Permutation l l' ->
+  nres_eq l l' (bin_numeric kind l n_bins m interior) (bin_numeric kind l' n_bins m interior).
+Proof. exact bin_numeric_perm. Qed.
+Print Assumptions C13_bin_numeric_perm.
+
+Theorem C13_bin_numeric_perm_rows : forall kind l l' n_bins m interior n e t rows n' e' t' rows',
+  Permutation l l' ->
+  bin_numeric kind l n_bins m interior = NOk n e t rows ->
+  bin_numeric kind l' n_bins m interior = NOk n' e' t' rows' ->
+  n = n' /\ List.length e = List.length e' /\ Forall2 xeq e e' /\ Forall2 xeq2 t t' /\
+  forall i j o, nth_error l i = Some o -> nth_error l' j = Some o ->
+    exists r r', nth_error rows i = Some r /\ nth_error rows' j = Some r' /\ nrow_eq r r'.
+Proof. exact bin_numeric_perm_rows. Qed.
+Print Assumptions C13_bin_numeric_perm_rows.
+
+(* reduced fractions in the column: n_bins, edge vector, edge table EQUAL, frames `map g` of the SAME g *)
+Theorem C13_bin_numeric_perm_canon : forall kind l l' n_bins m interior,
+  Permutation l l' -> Forall ocanon l ->
+  nres_eq_canon l l' (bin_numeric kind l n_bins m interior) (bin_numeric kind l' n_bins m interior).
+Proof. exact bin_numeric_perm_canon. Qed.
+Print Assumptions C13_bin_numeric_perm_canon.
+
+(* .value_counts() *)
+Theorem C13_value_counts_perm : forall c l l', Permutation l l' -> count_code c l = count_code c l'.
+Proof. exact count_code_perm. Qed.
+Print Assumptions C13_value_counts_perm.
+
+(* ... .sort(by=["count", name], descending=[True, False]): the SAME table (no ties: categories are distinct) *)
+Theorem C13_freq_table_perm : forall l l', Permutation l l' -> freq_table l = freq_table l'.
+Proof. exact freq_table_perm_inv. Qed.
+Print Assumptions C13_freq_table_perm.
+
+(* string / categorical / enum: returned n_bins, kept categories, pooled label, k EQUAL; bins = map g of the SAME g *)
+Theorem C13_bin_string_perm : forall kind names l l' n_bins,
+  Permutation l l' ->
+  sres_eq l l' (bin_string kind names l n_bins) (bin_string kind names l' n_bins).
+Proof. exact bin_string_perm. Qed.
+Print Assumptions C13_bin_string_perm.
+
+
